@@ -119,3 +119,99 @@ Example C02_nonvacuous :
                   0; 2; 102; 103; 2; 6; 7; 1; 8; 1; 5; 1; 4].
 Proof. exact honest_exchange. Qed.
 Print Assumptions C02_nonvacuous.
+
+(* ================= system level: a STATE invariant over unbounded interleaved histories =================
+   (definitions: model/System.v; proofs: proofs/SystemP.v, by induction over the history, one
+   preservation lemma per kind of step, built from the per-call results of C01 and C02 above.)
+   One receiver; the room definitions `defs` are a FIXED parameter of the history (changes of a
+   room's definition are the subject of C07 / C10).  A history is any interleaving, of any length,
+   of remote ingestion calls (SysRemote: the steps of run_steps), accepted local writes (SysWrite:
+   validate_all answered VOk) and accepted local deletions (SysDelete: validate_deletion answered VOk);
+   refused calls are steps too and change nothing.
+   A stored row is ENTITLED if it is private (no room) or its author is granted, by the accepted
+   history of the row's room, the own-rows right for the row's entity at the row's modification date
+   (the strongest right that is a function of the stored row alone).  A stored reference carries no
+   room; it is ENTITLED if it hangs on a stored row of the entity it names that is private or lies
+   in a room granting the reference's author the own-rows right for that entity at the reference's
+   creation date. *)
+From DV Require Import System SystemP.
+
+(* Rows: from a store whose rows are all entitled (e.g. the empty store), after ANY history every
+   stored row is entitled.  No exclusion: steps of the open kinds 1, 3 and 4 included. *)
+Theorem C02_rows_invariant_holds : forall defs dm hist st,
+  nodes_entitled defs st = true ->
+  nodes_entitled defs (sys_final (build_rooms defs) dm st hist) = true.
+Proof. exact rows_invariant. Qed.
+Print Assumptions C02_rows_invariant_holds.
+
+(* Rows and references.  The exclusion that is needed is NOT "no step of kind 3 or 4" — such steps
+   keep the invariant (C02_store_invariant_blind_to_kinds_3_4, C02_reference_calls_keep_invariant) —
+   but hist_stable: no step retypes, moves to another room or removes a row on which a reference
+   hangs that the step keeps (anchors_kept, evaluated on the tables before and after each step, as
+   viol_step is), and no local write stores the same row id twice.  The condition is empty for
+   calls that carry references or reference tombstones.  Each clause is needed:
+   C02_store_invariant_refuted. *)
+Theorem C02_store_invariant_outside_known : forall defs dm hist st,
+  all_entitled defs st = true ->
+  hist_stable (build_rooms defs) dm st hist = true ->
+  all_entitled defs (sys_final (build_rooms defs) dm st hist) = true.
+Proof. exact store_invariant. Qed.
+Print Assumptions C02_store_invariant_outside_known.
+
+(* without hist_stable the invariant is lost — verdicts = (initial store entitled, history stable,
+   final rows entitled, final store entitled): (a) a step of kind 3 retypes a row carrying a
+   reference; (b) a flawless row tombstone leaves the row's references behind; (c) a flawless new
+   version moves a row, with another author's reference, into a room where that author has no right;
+   (d) the local user moves a private row with an older private reference into a room; (e) one
+   local request stores the same row id twice *)
+Theorem C02_store_invariant_refuted :
+  verdicts w_retype = (true, false, true, false) /\ c_kinds w_retype = [3] /\
+  verdicts w_tombstone = (true, false, true, false) /\ c_kinds w_tombstone = [] /\
+  verdicts w_move = (true, false, true, false) /\ c_kinds w_move = [] /\
+  verdicts w_local_move = (true, false, true, false) /\
+  verdicts w_twice = (true, false, true, false) /\ anchors_kept (c_pre w_twice) (c_final w_twice) = true.
+Proof. exact store_invariant_refuted. Qed.
+Print Assumptions C02_store_invariant_refuted.
+
+(* the witness of kind 3 above (C02_refuted) and a witness of kind 4 are stable histories with
+   entitled final stores; and the rows and references they leave are exactly those a flawless
+   history leaves: what kinds 3 and 4 violate is the right of the DISPLACED row / reference — a
+   property of the call (C02_outside_known), which no predicate on the stored tables can express *)
+Theorem C02_store_invariant_blind_to_kinds_3_4 :
+  verdicts (of_c02 w_K3) = (true, true, true, true) /\ c_kinds (of_c02 w_K3) = [3] /\
+  verdicts w_K4e = (true, true, true, true) /\ c_kinds w_K4e = [4].
+Proof. exact kinds_3_4_keep_the_invariant. Qed.
+Print Assumptions C02_store_invariant_blind_to_kinds_3_4.
+
+Theorem C02_kinds_3_4_states_honestly_reachable :
+  c_kinds w_K3_honest = [] /\
+  s_nodes (c_final w_K3_honest) = s_nodes (c_final (of_c02 w_K3)) /\
+  s_edges (c_final w_K3_honest) = s_edges (c_final (of_c02 w_K3)) /\
+  c_kinds w_K4_honest = [] /\
+  s_nodes (c_final w_K4_honest) = s_nodes (c_final w_K4e) /\
+  s_edges (c_final w_K4_honest) = s_edges (c_final w_K4e).
+Proof. exact kinds_3_4_states_are_honestly_reachable. Qed.
+Print Assumptions C02_kinds_3_4_states_honestly_reachable.
+
+(* in general: EVERY call that carries references (kind 4 included) and EVERY call that carries
+   reference tombstones (kind 1 included) keeps the invariant, with no side condition *)
+Theorem C02_reference_calls_keep_invariant : forall defs R st b,
+  all_entitled defs st = true -> all_entitled defs (fst (step_edges (build_rooms defs) R st b)) = true.
+Proof. exact preserved_by_remote_references. Qed.
+Print Assumptions C02_reference_calls_keep_invariant.
+
+Theorem C02_reference_tombstones_keep_invariant : forall defs st b,
+  all_entitled defs st = true -> all_entitled defs (fst (step_edels (build_rooms defs) st b)) = true.
+Proof. exact preserved_by_reference_tombstones. Qed.
+Print Assumptions C02_reference_tombstones_keep_invariant.
+
+(* hypotheses are satisfiable and the conclusion is not empty: from the EMPTY store, a local write
+   of two rows and a reference, a row and a reference received from a peer, a REFUSED local write
+   (answer [1]), a local deletion, a new version of a row on which a reference hangs — a stable
+   history, no kind reported, three rows and one reference held at the end, all entitled *)
+Example C02_store_invariant_nonvacuous :
+  verdicts w_sys_ok = (true, true, true, true) /\ c_kinds w_sys_ok = [] /\
+  c_answers w_sys_ok = [[0]; [0; 0]; [0; 0]; [1]; [0]; [0; 0]] /\
+  dump (c_final w_sys_ok) = [3; 2; 9; 10;  1; 8;  0;  0].
+Proof. exact store_invariant_nonvacuous. Qed.
+Print Assumptions C02_store_invariant_nonvacuous.
